@@ -366,9 +366,12 @@ def _obs_rate(r, units, full):
     qu, qt, qr = r.quotation
     iu, it, ir = r.inverse_quotation
     if full:
-        back = eval(rep, {'__builtins__': {}, 'ExchangeRate': ExchangeRate,
-                          'Currency': lambda s: units[s], 'Decimal': Decimal})
-        roundtrip = bool(back == r and hash(back) == hash(r))
+        try:
+            back = eval(rep, {'__builtins__': {}, 'ExchangeRate': ExchangeRate,
+                              'Currency': lambda s: units[s], 'Decimal': Decimal})
+            roundtrip = bool(back == r and hash(back) == hash(r))
+        except Exception:       # noqa: a rate whose repr cannot be evaluated back
+            roundtrip = False
         inv = r.inverse_rate
     else:
         roundtrip, inv = True, ir
